@@ -207,6 +207,23 @@ def _one_cart(ctx, rng, workdir, verbosity):
         g.gfx = Gfx.from_bytes(carts.random_bytes(rng, 8192), version=version or 8)
         ctx.feature('gfx_object_replaced')
         case['history'] = 'game.gfx was replaced by another Gfx object before saving'
+    if rng.random() < 0.15:
+        # a section object made for another data version than the cart's (the factories default to old versions; a section taken over
+        # from another cart): the cart's bytes are what the object holds, its file is the cart's
+        from pico8.gff.gff import Gff
+        from pico8.sfx.sfx import Sfx
+        from pico8.music.music import Music
+        from pico8.map.map import Map
+        secname = rng.choice(('gff', 'sfx', 'music', 'map'))
+        cls_ = {'gff': Gff, 'sfx': Sfx, 'music': Music, 'map': Map}[secname]
+        cur = bytes(getattr(g, secname).to_bytes())
+        other_v = rng.choice([v for v in (4, 8, 15, 16, 33) if v != version])
+        if secname == 'map':
+            g.map = Map.from_bytes(cur, version=other_v, gfx=g.gfx)
+        else:
+            setattr(g, secname, cls_.from_bytes(cur, version=other_v))
+        ctx.feature('section_object_of_another_version')
+        case['history'] = (case.get('history', '') + '; ' if case.get('history') else '') + 'game.%s replaced by an object made for version %d' % (secname, other_v)
     if resave:
         # HISTORY: the same Game object was saved before, then edited through the APIs, and is saved again
         try:
@@ -331,7 +348,7 @@ def gates(m, tier):
               'regions_structured', 'regions_zero', 'regions_ff', 'regions_defaultish'):
         if f.get(k, 0) < 5:
             missed.append('%s seen %d times' % (k, f.get(k, 0)))
-    for k in ('code_long_strings', 'gfx_object_replaced', 'verbosity_debug', 'verbosity_quiet', 'verbosity_normal', 'saved_edited_saved_again', 'edit_map_lower_half',
+    for k in ('code_long_strings', 'section_object_of_another_version', 'gfx_object_replaced', 'verbosity_debug', 'verbosity_quiet', 'verbosity_normal', 'saved_edited_saved_again', 'edit_map_lower_half',
               'code_object_of_another_version', 'version0_cart_with_foreign_code_object'):
         if f.get(k, 0) < 10:
             missed.append('%s seen %d times' % (k, f.get(k, 0)))
